@@ -132,6 +132,7 @@ def _rules():
             lambda R, c, rid: shared.exclude_known(R, c, rid),
             lambda R, c, rid: accessors.range_accessors(R, c, rid),
             lambda R, c, rid: accessors.variant_preserving(R, c, rid),
+            lambda R, c, rid: _as(R, c, rid, c08.rule_d, "C08.d"),
         ],
         "text-units": [
             lambda R, c, rid: shared.text_units(R, c, rid),
